@@ -601,6 +601,7 @@ def _fuzz_stream(ctx):
             r.kf.update(d["kf"])
             r.kf_examples.update(d["kf_examples"])
             r.samples = [tuple(x) for x in d["samples"]]
+            r.discards.update(d.get("discards", {}))
             res.merge(r)
             execs += d["execs"]
             if d["execs"] < runs:
